@@ -1,4 +1,5 @@
 import MidoProofs.SrcTie.Codec
+import MidoProofs.SrcTie.Msg
 #print axioms Mido.src_decode_sysex_data
 #print axioms Mido.src_decode_quarter_frame
 #print axioms Mido.src_decode_songpos
@@ -7,3 +8,8 @@ import MidoProofs.SrcTie.Codec
 #print axioms Mido.src_decode_short
 #print axioms Mido.src_check_data_byte
 #print axioms Mido.src_check_data
+#print axioms Mido.src_decode_message
+#print axioms Mido.spec_rows
+#print axioms Mido.special_fn
+#print axioms Mido.dec_sysex
+#print axioms Mido.dec_undefined
